@@ -74,7 +74,7 @@ def cases(tier, seed):
             combos = list(itertools.product(*opts))
             if not thorough:
                 rng.shuffle(combos)
-                combos = combos[:{1: 12, 2: 60, 3: 110}[d]]
+                combos = combos[:{1: 14, 2: 160, 3: 420}[d]]
             for ci, combo in enumerate(combos):
                 pats = none_patterns(d, rng, 1)
                 if thorough:
@@ -93,7 +93,7 @@ def cases(tier, seed):
                     cs.append({'gen': 'tt', 'N': N, 'R': gens.rank_profile(rng, d, 'rand', 3), 'idx': ['e'] + with_nones(lead, pat), 'dtype': 'f64', 'vals': 'int'})
                     cs.append({'gen': 'tt', 'N': N, 'R': gens.rank_profile(rng, d, 'rand', 3), 'idx': with_nones(trail, pat) + ['e'], 'dtype': 'f64', 'vals': 'int'})
     # order 4 (thorough: sizes incl. 5) sampled
-    for i in range(300 if not thorough else 20000):
+    for i in range(2500 if not thorough else 60000):
         d = 4 if i % 4 else 5
         N = [rng.choice((1, 2, 3, 5) if thorough else (1, 2, 3)) for _ in range(d)]
         combo = [rng.choice(pos_options(n, thorough)) for n in N]
@@ -108,7 +108,7 @@ def cases(tier, seed):
         cs.append({'gen': 'tt', 'N': N, 'R': gens.rank_profile(rng, len(N), 'rand', 3), 'idx': ['e'], 'bare': True, 'dtype': 'f64', 'vals': 'int'})
     # operators: pairs
     for d in (1, 2, 3):
-        for rep in range({1: 60, 2: 250, 3: 250}[d] if not thorough else {1: 400, 2: 6000, 3: 12000}[d]):
+        for rep in range({1: 200, 2: 1200, 3: 1200}[d] if not thorough else {1: 1000, 2: 20000, 3: 40000}[d]):
             M = [rng.choice(sizes) for _ in range(d)]
             N = [rng.choice(sizes) for _ in range(d)]
             rows, cols = [], []
@@ -124,7 +124,7 @@ def cases(tier, seed):
             cs.append({'gen': 'ttm', 'M': M, 'N': N, 'R': gens.rank_profile(rng, d, 'rand', 3), 'idx': with_nones(rows, pat) + with_nones(cols, pat),
                        'dtype': 'f64', 'vals': 'int'})
     # apply_mask
-    for i in range(150 if not thorough else 3000):
+    for i in range(800 if not thorough else 10000):
         d = rng.randint(1, 4)
         N = [rng.choice((1, 2, 3, 4)) for _ in range(d)]
         cs.append({'gen': 'mask', 'N': N, 'R': gens.rank_profile(rng, d, 'rand', 3), 'Mrows': [1, 2, 7, 1, 30][i % 5], 'exhaustive': i % 7 == 0,
